@@ -8,10 +8,10 @@ import (
 	"github.com/idena-network/idena-go/common"
 	"github.com/idena-network/idena-go/core/state"
 
-	"verif/sim/oracle"
 	"github.com/idena-network/idena-go/blockchain/types"
 	"github.com/idena-network/idena-go/core/state/snapshot"
 	"github.com/idena-network/idena-go/protocol"
+	"verif/sim/oracle"
 
 	"verif/sim/scen"
 	"verif/sim/seamrt"
